@@ -84,5 +84,18 @@ PROPS["C10"] = {
     "technique": "runtime monitoring: differential oracle (reference RFC 6455 codec) over a complete field grid x read-segmentation plans",
 }
 
+PROPS["C07"] = {
+    "level": "exploration",
+    "engines": [
+        {"bin": "hv", "args": ["c07"]},
+    ],
+    "min": {"quick": {"serialised": 1500, "response_parses": 100_000, "client_exchanges": 300, "redirect_chains": 100, "exhaustive_chunkings": 190},
+            "thorough": {"serialised": 30_000, "client_exchanges": 5000}},
+    "assumptions": [],
+    "level_text": "Responses built through the public API are serialised and judged by a strict HTTP reference reader; reference-generated server messages (every status code, Content-Length and chunked in all small chunkings) are parsed by the real response parser under exhaustive read plans; the real client is run against scripted loopback servers including redirect chains, with both the client's return value and the server's record checked.",
+    "level_note": "Trusted: hvcommon::httpref / respgen and the scripted server. Port 80 of per-process 127.77.x.y addresses is used because the client's URL parser cannot name a port.",
+    "technique": "runtime monitoring: reference-reader oracle on serialised bytes, model-based oracle on parser/client results, server-side event log",
+}
+
 # properties without a check, with the reason (kept current)
 NOT_CLAIMED = {}
